@@ -712,12 +712,16 @@ class TransferManager(BaseManager):
     async def _prepare_download_path(self, transfer: Transfer):
         if transfer.local_path is None:
             download_path, file_path = self._shares_manager.calculate_download_path(transfer.remote_path)
-            transfer.local_path = os.path.join(download_path, file_path)
+            local_path = os.path.join(download_path, file_path)
             # Claim the path in the same step in which it was found to be free
             # (no await in between) otherwise another download that is starting
             # could be given the same path
             os.makedirs(download_path, exist_ok=True)
-            open(transfer.local_path, 'ab').close()
+            open(local_path, 'ab').close()
+            # Only a path that was claimed is kept: after a failed attempt the
+            # path could be given to another download, it is calculated again
+            # when the download is retried
+            transfer.local_path = local_path
 
         path, _ = os.path.split(transfer.local_path)
         await self._shares_manager.create_directory(path)
@@ -1146,7 +1150,7 @@ class TransferManager(BaseManager):
         try:
             await self._prepare_download_path(transfer)
         except OSError:
-            logger.exception("failed to create path : %s", transfer.local_path)
+            logger.exception("failed to create path for download : %s", transfer)
             await connection.disconnect(CloseReason.REQUESTED)
             await transfer.state.fail(reason=FailReason.FILE_READ_ERROR)
             return
